@@ -708,9 +708,250 @@ func (g *c09gen) chain() {
 	g.env.Add(fmt.Sprintf("CChain %s %s %s", Cunits(u), Clist(ops), Clist(obs)), "chain "+strings.Join(txt, " ;; "), "chain/"+flavourOf(u), true)
 }
 
+
+// ---------- effectful conversions: order, failures, re-entrancy ----------
+
+const effectPrelude = `var log = []; function E(id, s, n, ts, tn, re) { return {
+  toString: function(){ log.push(2*id); if (ts) throw "boom"; return re ? re() + s : s },
+  valueOf: function(){ log.push(2*id+1); if (tn) throw "boom"; if (re) re(); return n } } }`
+
+// String methods called from inside an argument's toString / valueOf, with their ES5 results
+var reenter = []struct{ js, out string }{
+	{`function(){return "ab".concat("c","d")}`, "abcd"},
+	{`function(){return "xabcx".slice(1,4)}`, "abc"},
+	{`function(){return "a-b".split("-").join("+")}`, "a+b"},
+	{`function(){return "q".concat()}`, "q"},
+	{`function(){return "hello".substr(1,3)}`, "ell"},
+	{`function(){return String("abcabc".lastIndexOf("c"))}`, "5"},
+	{`function(){return "p".concat("q").concat("r")}`, "pqr"},
+	{`function(){return "ab".concat("c","d").toUpperCase()}`, "ABCD"},
+}
+
+type earg struct{ js, coq string }
+
+func (g *c09gen) smallPosition(lens []int) float64 {
+	r := g.env.Rng
+	base := Pick(r, lens)
+	switch k := r.Intn(12); {
+	case k < 5:
+		return float64(base + r.Intn(5) - 2)
+	case k < 7:
+		return float64(-base + r.Intn(3) - 1)
+	case k < 9:
+		return float64(r.Intn(4))
+	case k < 10:
+		return float64(base) + Pick(r, []float64{0.5, -0.5, 0.9})
+	case k < 11:
+		return math.NaN()
+	default:
+		return math.Inf(-1)
+	}
+}
+
+// an object argument carrying both a string and a number
+func (g *c09gen) effectObj(id int, sv []uint16, nv float64) earg {
+	r := g.env.Rng
+	ts, tn := r.Intn(8) == 0, r.Intn(8) == 0
+	re := "null"
+	full := sv
+	if r.Intn(5) == 0 {
+		k := Pick(r, reenter)
+		re = k.js
+		full = append(Units(k.out), sv...)
+	}
+	return earg{
+		fmt.Sprintf("E(%d,%s,%s,%v,%v,%s)", id, g.strExpr(sv), JSNum(nv), ts, tn, re),
+		fmt.Sprintf("EObj %d %s %s %s %s", id, Cunits(full), Cdouble(nv), Cbool(ts), Cbool(tn)),
+	}
+}
+
+func logOf(vm *otto.Otto) string {
+	o := RunJS(vm, "log")
+	if o.Err != nil || o.Panic != nil || !o.Val.IsObject() {
+		return "[999]"
+	}
+	obj := o.Val.Object()
+	lv, _ := obj.Get("length")
+	n, _ := lv.ToInteger()
+	items := make([]int64, 0, n)
+	for i := int64(0); i < n; i++ {
+		e, _ := obj.Get(fmt.Sprintf("%d", i))
+		v, _ := e.ToInteger()
+		items = append(items, v)
+	}
+	return Czlist(items)
+}
+
+func (g *c09gen) effectHistory() {
+	r := g.env.Rng
+	vm := otto.New()
+	if o := RunJS(vm, effectPrelude); o.Err != nil || o.Panic != nil {
+		panic(fmt.Sprintf("c09: effect prelude: %v %v", o.Err, o.Panic))
+	}
+	n := 2 + r.Intn(4)
+	var steps, obs, txt []string
+	for k := 0; k < n; k++ {
+		fl := g.flavour()
+		var m methSpec
+		from := false
+		switch q := r.Intn(20); {
+		case q < 7:
+			m = methods[8] // concat
+		case q < 8:
+			from = true
+		default:
+			m = g.pickMethod()
+		}
+		var call, stepCoq string
+		if from {
+			na := r.Intn(4)
+			ea := make([]earg, na)
+			for i := range ea {
+				nv := float64(Pick(r, []uint16{65, 97, 0xE9, 0x65E5, 48, 0x3A3}))
+				if r.Intn(2) == 0 {
+					ea[i] = g.effectObj(i+1, g.units(0, 2), nv)
+				} else {
+					ea[i] = earg{JSNum(nv), "EPlain (ANum " + Cdouble(nv) + ")"}
+				}
+			}
+			js, cq := make([]string, na), make([]string, na)
+			for i, e := range ea {
+				js[i], cq[i] = e.js, e.coq
+			}
+			call = "String.fromCharCode(" + strings.Join(js, ",") + ")"
+			stepCoq = fmt.Sprintf("(None, ERLit [], %s)", Clist(cq))
+		} else {
+			u, _ := g.receiverUnits(m)
+			if len(u) == 0 && r.Intn(3) > 0 {
+				u = g.units(fl, 5)
+			}
+			args := g.callArgs(m, u, fl)
+			for overflowArg(m, args) && flavourOf(u) != "ascii" {
+				args = g.callArgs(m, u, fl)
+			}
+			if m.coq == "MConcat" && len(args) == 0 {
+				args = append(args, strArg(g, g.units(fl, 3)))
+			}
+			js, cq := make([]string, len(args)), make([]string, len(args))
+			for i, a := range args {
+				js[i], cq[i] = a.js, "EPlain ("+a.coq+")"
+				if r.Intn(5) < 3 && (strings.HasPrefix(a.coq, "AStr") || strings.HasPrefix(a.coq, "ANum")) {
+					sv := g.needle(u, fl)
+					nv := g.smallPosition(lensOf(u))
+					if strings.HasPrefix(a.coq, "AStr") && r.Intn(6) > 0 {
+						var uu []uint16
+						for _, f := range strings.Fields(strings.Trim(strings.TrimPrefix(a.coq, "AStr "), "[]")) {
+							var x uint16
+							fmt.Sscanf(strings.TrimSuffix(f, ";"), "%d", &x)
+							uu = append(uu, x)
+						}
+						sv = uu
+					}
+					if strings.HasPrefix(a.coq, "ANum") && r.Intn(6) > 0 {
+						var bits uint64
+						fmt.Sscanf(a.coq, "ANum %d", &bits)
+						if f := math.Float64frombits(bits); f < 9e18 {
+							nv = f
+						}
+					}
+					e := g.effectObj(i+1, sv, nv)
+					js[i], cq[i] = e.js, e.coq
+				}
+			}
+			ischar := m.coq == "MCharAt" || m.coq == "MCharCodeAt"
+			if !ischar && r.Intn(10) < 3 {
+				ts := r.Intn(8) == 0
+				call = "String.prototype." + m.js + ".call(" + strings.Join(append([]string{fmt.Sprintf("E(0,%s,0,%v,false,null)", g.strExpr(u), ts)}, js...), ",") + ")"
+				stepCoq = fmt.Sprintf("(Some %s, ERObj 0 %s %s, %s)", m.coq, Cunits(u), Cbool(ts), Clist(cq))
+			} else {
+				call = "(" + g.strExpr(u) + ")." + m.js + "(" + strings.Join(js, ",") + ")"
+				stepCoq = fmt.Sprintf("(Some %s, ERLit %s, %s)", m.coq, Cunits(u), Clist(cq))
+			}
+		}
+		var res, shown string
+		if r.Intn(10) < 7 { // the script catches a failing conversion and carries on
+			src := `log = []; (function(){ try { return [0, ` + call + `] } catch (e) { return [1, e === "boom" ? 8 : (e instanceof TypeError ? (/runtime error/.test(e.message) ? 9 : 6) : 1)] } })()`
+			// (a Go runtime panic raised under a JS try block reaches the script as a TypeError whose message
+			// carries the Go text "runtime error"; it is recorded as what it is, class 9)
+			o := RunJS(vm, src)
+			shown = src
+			if o.Err != nil || o.Panic != nil || !o.Val.IsObject() {
+				res = cres(o)
+				if o.Err != nil && strings.Contains(o.Err.Error(), "runtime error") {
+					res = "VErr 9" // a Go panic raised under a JS try block comes back from Run as this TypeError
+				}
+				shown += " -> " + obsText(o)
+			} else {
+				obj := o.Val.Object()
+				flag, _ := obj.Get("0")
+				val, _ := obj.Get("1")
+				if f, _ := flag.ToInteger(); f == 1 {
+					c, _ := val.ToInteger()
+					res = fmt.Sprintf("VErr %d", c)
+					shown += fmt.Sprintf(" -> caught, class %d", c)
+				} else {
+					res = cval(val)
+					shown += " -> " + obsText(Outcome{Val: val})
+				}
+			}
+		} else {
+			src := "log = []; " + call
+			o := RunJS(vm, src)
+			res = cres(o)
+			shown = src + " -> " + obsText(o)
+		}
+		lg := logOf(vm)
+		steps = append(steps, stepCoq)
+		obs = append(obs, fmt.Sprintf("(%s, %s)", res, lg))
+		txt = append(txt, shown+" log="+lg)
+	}
+	g.env.Add(fmt.Sprintf("CEffect %s %s", Clist(steps), Clist(obs)), "effects "+effectPrelude+" ;; "+strings.Join(txt, " ;; "), "effects", true)
+}
+
+func (g *c09gen) pinnedEffect(stepCoq, src string) {
+	vm := otto.New()
+	RunJS(vm, effectPrelude)
+	o := RunJS(vm, "log = []; "+src)
+	lg := logOf(vm)
+	g.env.Add(fmt.Sprintf("CEffect [%s] [(%s, %s)]", stepCoq, cres(o), lg), fmt.Sprintf("pinned effects %s ;; %s -> %s log=%s", effectPrelude, src, obsText(o), lg), "pinned", true)
+}
+
+// String.prototype.toString replaced, then a call on a primitive / String object receiver
+func (g *c09gen) patched() {
+	r := g.env.Rng
+	vm := otto.New()
+	x := g.units(r.Intn(3), 5)
+	m := g.pickMethod()
+	fl := g.flavour()
+	u := g.units(fl, 6)
+	args := g.callArgs(m, u, fl)
+	for overflowArg(m, args) && flavourOf(u) != "ascii" {
+		args = g.callArgs(m, u, fl)
+	}
+	e := g.strExpr(u)
+	var rcoq, call string
+	a := strings.Join(jsOf(args), ",")
+	switch k := r.Intn(10); {
+	case k < 6:
+		rcoq, call = "RLit "+Cunits(u), "("+e+")."+m.js+"("+a+")"
+	case k < 8:
+		rcoq, call = "RStrObj "+Cunits(u), "new String("+e+")."+m.js+"("+a+")"
+	default:
+		if (m.coq == "MCharAt" || m.coq == "MCharCodeAt") && !plain(u) {
+			u = g.units(2, 6)
+			e = g.strExpr(u)
+		}
+		rcoq, call = "RCallStr "+Cunits(u), callOn(e)(m.js, jsOf(args))
+	}
+	src := "String.prototype.toString = function(){ return " + g.strExpr(x) + " }; " + call
+	o := RunJS(vm, src)
+	g.env.Add(fmt.Sprintf("CPatched %s %s (%s) %s (%s)", Cunits(x), m.coq, rcoq, coqOf(args), cres(o)),
+		fmt.Sprintf("patched %s -> %s", src, obsText(o)), "patched/"+m.js, true)
+}
+
 func runC09(env *Env) {
 	env.Import = "Otto.C09.Corr"
-	env.Rule = "receiver strings of 0-8 code points over ASCII / Latin-1 / BMP (2- and 3-byte UTF-8, U+FFFD, whitespace set) / astral pairs / lone surrogates, written as literals, escapes, concatenations or String.fromCharCode; position arguments around 0 and the byte, rune and unit lengths of receiver and needle, negative, fractional, NaN, +-Infinity, -0, undefined/null/boolean, omitted, 2^31, 2^32, 2^53, 2^63 neighbourhood, 1e19; receivers string / String object / .call on string, number, boolean, object with toString, undefined, null; histories of 2-5 calls on one variable; every generated case counts as non-trivial when distinct"
+	env.Rule = "receiver strings of 0-8 code points over ASCII / Latin-1 / BMP (2- and 3-byte UTF-8, U+FFFD, whitespace set) / astral pairs / lone surrogates, written as literals, escapes, concatenations or String.fromCharCode; position arguments around 0 and the byte, rune and unit lengths of receiver and needle, negative, fractional, NaN, +-Infinity, -0, undefined/null/boolean, omitted, 2^31, 2^32, 2^53, 2^63 neighbourhood, 1e19; receivers string / String object / .call on string, number, boolean, object with toString, undefined, null; histories of 2-5 calls on one variable; histories of 2-5 calls on one runtime whose receiver and arguments are objects with logging, throwing (caught by the script or not) and re-entrant toString/valueOf, compared on result and conversion log; calls under a replaced String.prototype.toString; every generated case counts as non-trivial when distinct"
 	g := &c09gen{env: env, vm: otto.New()}
 	r := env.Rng
 
@@ -728,19 +969,31 @@ func runC09(env *Env) {
 	g.pinnedCall("MIndex", "RLit [97;98;99]", "[AStr [48;49]]", `"abc"["01"]`)
 	g.pinnedCall("MSlice", "RLit [97;55296;56320;98]", "[ANum "+Cdouble(1)+"; ANum "+Cdouble(2)+"]", "'a\U00010000b'.slice(1,2)")
 	g.pinnedCall("MSplit", "RLit [97;55296;56320;98]", "[AStr []]", "'a\U00010000b'.split('')")
+	g.pinnedEffect("(Some MSplit, ERLit [97;44;98], [EObj 1 [44] 0 false false; EPlain (ANum 0)])", `"a,b".split(E(1,",",0,false,false,null), 0)`)
+	g.pinnedEffect("(Some MLastIndexOf, ERLit [], [EPlain (AStr [99]); EObj 2 [120] "+Cdouble(3)+" false false])", `"".lastIndexOf("c", E(2,"x",3,false,false,null))`)
+	{
+		vm := otto.New()
+		src := `String.prototype.toString = function(){ return "zzz" }; "aaa".indexOf("a")`
+		o := RunJS(vm, src)
+		env.Add(fmt.Sprintf("CPatched [122;122;122] MIndexOf (RLit [97;97;97]) [AStr [97]] (%s)", cres(o)), fmt.Sprintf("pinned patched %s -> %s", src, obsText(o)), "pinned", true)
+	}
 
 	for env.Count() < env.N {
 		switch k := r.Intn(100); {
-		case k < 62:
+		case k < 50:
 			g.oneCall()
-		case k < 72:
+		case k < 58:
 			g.lengthOrIndex()
-		case k < 78:
+		case k < 63:
 			g.fromCharCode()
-		case k < 84:
+		case k < 68:
 			g.compare()
-		default:
+		case k < 80:
 			g.chain()
+		case k < 94:
+			g.effectHistory()
+		default:
+			g.patched()
 		}
 	}
 }
